@@ -11,7 +11,34 @@ import (
 	"verif/engine/instrument"
 )
 
-const repoDir = "/repo"
+// repoDir is the storj/drpc tree under test: /repo unless VERIF_REPO points at a scratch
+// worktree (used to try changes without touching /repo).
+var repoDir = func() string {
+	if d := os.Getenv("VERIF_REPO"); d != "" {
+		return d
+	}
+	return "/repo"
+}()
+
+// modArgs returns the extra go build arguments that bind the harness module to repoDir.
+func modArgs(scratch string) ([]string, error) {
+	if repoDir == "/repo" {
+		return nil, nil
+	}
+	b, err := os.ReadFile(filepath.Join(verifDir(), "go.mod"))
+	if err != nil {
+		return nil, err
+	}
+	mod := strings.Replace(string(b), "storj.io/drpc => /repo", "storj.io/drpc => "+repoDir, 1)
+	mf := filepath.Join(scratch, "go.mod")
+	if err := os.WriteFile(mf, []byte(mod), 0o644); err != nil {
+		return nil, err
+	}
+	if sum, err := os.ReadFile(filepath.Join(verifDir(), "go.sum")); err == nil {
+		_ = os.WriteFile(filepath.Join(scratch, "go.sum"), sum, 0o644)
+	}
+	return []string{"-modfile=" + mf}, nil
+}
 
 // engineChecks are decided by the scheduler-based explorer (mc binary, overlay build);
 // the others by the sequential enumerator (seq binary, plain build).
@@ -64,7 +91,13 @@ func buildMC(scratch string) (string, error) {
 		return "", fmt.Errorf("instrument: %w", err)
 	}
 	bin := filepath.Join(scratch, "mc")
-	code, err := runCmd(verifDir(), os.Stderr, "go", "build", "-overlay", res.Overlay, "-o", bin, "./cmd/mc")
+	margs, err := modArgs(scratch)
+	if err != nil {
+		return "", err
+	}
+	args := append([]string{"build"}, margs...)
+	args = append(args, "-overlay", res.Overlay, "-o", bin, "./cmd/mc")
+	code, err := runCmd(verifDir(), os.Stderr, "go", args...)
 	if err != nil || code != 0 {
 		return "", fmt.Errorf("building mc with overlay failed (exit %d): %v", code, err)
 	}
@@ -73,7 +106,13 @@ func buildMC(scratch string) (string, error) {
 
 func buildSeq(scratch string) (string, error) {
 	bin := filepath.Join(scratch, "seq")
-	code, err := runCmd(verifDir(), os.Stderr, "go", "build", "-o", bin, "./cmd/seq")
+	margs, err := modArgs(scratch)
+	if err != nil {
+		return "", err
+	}
+	args := append([]string{"build"}, margs...)
+	args = append(args, "-o", bin, "./cmd/seq")
+	code, err := runCmd(verifDir(), os.Stderr, "go", args...)
 	if err != nil || code != 0 {
 		return "", fmt.Errorf("building seq failed (exit %d): %v", code, err)
 	}
